@@ -2,17 +2,17 @@
 """Regenerate MANIFEST.json from the table below (claimed checks + not_applicable)."""
 import json, os
 CLAIMED = {
- 'C01': ('4.C01', 'buffer/flush stream law and the upstream->client relay law as postconditions of the real functions; client-side teardown clauses shared with C07',
+ 'C01': ('4.C01', 'buffer/flush stream law and the relay laws (upstream->client, opaque-tunnel client->upstream, plain TCP tunnel handler, reverse-proxy upstream handler) as postconditions of the real functions; client-side teardown clauses shared with C07',
          'E-SEND/E-RECV socket contracts, A-ATOM, A-VIEW, A-PARSE (bookkeeping parser used via contract), plugins return chunks unchanged, connection pool off'),
  'C02': ('4.C02', 'first and later requests: hop-by-hop fields removed, Via added (first request), operator-disabled fields not emitted, chunked bodies re-encoded incl. the empty one — postconditions on on_request_complete / on_client_data / _get_body_or_chunks; equality of whole forwarded requests: exhaustive native end-to-end sweep (bounded)',
          'HttpParser.build (dict comprehension) used through an assumed field-emission contract and covered by the bounded sweep; known finding F18 (no Via on follow-ups) carved out'),
- 'C03': ('4.C03', 'framing-skeleton step contracts proved for all inputs (find_http_line, ChunkParser.process per state, HttpParser._process_body Content-Length arithmetic); segmentation independence of whole messages: exhaustive native cut-set sweep (bounded stand-in)',
+ 'C03': ('4.C03', 'framing contracts proved for all inputs: find_http_line, ChunkParser.process / parse (per state, well-formedness, termination), _process_body, _process_headers / _process_line (only whole lines consumed, termination) and the HttpParser.parse driver (the unconsumed tail is exactly what self.buffer keeps); segmentation independence of whole messages: exhaustive native cut-set sweep + CPython cross-check of the contracts on reached parser states (bounded stand-ins)',
          'A-STR (int parsing uninterpreted); the relational statement feed(pieces)==feed(whole) is bounded (message family x all 2-/3-piece cuts + bytewise), not proved'),
  'C04': ('4.C04', 'reduced claim: follow-up branch of HttpProxyPlugin.on_client_data — an incomplete follow-up request is kept across segments, a complete one is forwarded exactly once, scrubbed, and the parser reset',
          'right-origin / right-route selection for follow-ups is NOT claimed (open known findings F11, F12); adversarial follow-up parser; pass-through-or-drop plugins'),
  'C05': ('4.C05', 'no-escape and isolation-frame contracts on Threadless._cleanup/_cleanup_inactive and ThreadlessFdExecutor.work against adversarial works',
          'E-SEL (selector does not raise for recorded descriptors), asyncio task plumbing (_run_once) not covered, _cleanup_inactive loops unrolled (bounded: <=2 works)'),
- 'C06': ('4.C06', 'build_http_pkt == RFC 7230 serialisation spec function (loop invariant), Content-Length framing rule of build_http_response, _parse_first_request: parse failure => exactly the canned 400 + exception, rejection => 400 + teardown; every self-made response parsed by http.client in a native closed-term / grid check (bounded)',
+ 'C06': ('4.C06', 'build_http_pkt == RFC 7230 serialisation spec function (loop invariant), exact bytes and Content-Length framing rule of build_http_request / build_http_response (one length field whatever its spelling, none for chunked), _parse_first_request: parse failure => exactly the canned 400 + exception, rejection => 400 + teardown; every self-made response parsed by http.client in a native closed-term / grid check (bounded)',
          'A-STR (lower/join uninterpreted), adversarial parser and plugin contracts; okResponse / canned packets are covered by the bounded native check only'),
  'C07': ('4.C07', 'teardown only when the client buffer is empty or the client is dead (T1), write interest while output is pending (T2), promptness (T3), deferred teardown flag (T4) on the real handlers',
          'peer keeps reading; handle_data used via adversarial contract; known finding F20 (threaded final flush + SSLWant*) carved out under C10'),
@@ -30,7 +30,7 @@ CLAIMED = {
          'E-PATH (normpath resolves dot segments, no symlinks), serve_static_file via contract'),
  'C14': ('4.C14', 'default ports (80 / 443 for CONNECT), host / host:port authority splitting, connect dispatch (literal vs name, IPv6 brackets removed) as postconditions; full request-target grammar incl. userinfo and IPv6 forms: native sweep vs urllib.parse (bounded)',
          'A-STR; IPv6 / userinfo branches of Url._parse are bounded (sweep), known finding F17 (damaged authorities accepted) carved out'),
- 'C15': ('4.C15', 'codec step contracts and builder specs shared with C03/C06 (re-proved), empty chunked body re-encoding; whole-message round trips parse(build), build(parse), decode(encode) for all chunk sizes vs a reference decoder, update_body: native sweep (bounded)',
+ 'C15': ('4.C15', 'parser framing contracts and builder specs shared with C03/C06 (re-proved), empty chunked body re-encoding; CPython cross-check of those contracts; whole-message round trips parse(build), build(parse), decode(encode) for all chunk sizes vs a reference decoder, update_body: native sweep (bounded)',
          'whole-message round trips are bounded, not proved; ChunkParser.to_chunks itself only through the sweep'),
  'C16': ('4.C16', 'build() == RFC 6455 spec function for every field combination and every payload length (unbounded ints); parse() inverts it incl. trailing bytes; apply_mask loop invariant',
          'E-CODEC (struct.pack/unpack big-endian; 8-byte form axiomatised by pack/unpack inverse), two xormask lemmas assumed with bounded check, bytes are code points 0..255'),
